@@ -3,4 +3,4 @@ import gadgets
 
 
 def run(tier):
-    return gadgets.standard("C09", tier, mc=["range"], weak=["weak_range", "weak_norange"], scen=["range"])
+    return gadgets.standard("C09", tier, mc=["range"], weak=["weak_range", "weak_norange"], scen=["range", "range-closing"])
